@@ -71,7 +71,9 @@ META = {
     "C09": _m("proof", ["stage:Stage.set_value", "stage:Stage._param_value", "sampling_method:SamplingMethod.add_parameter", "sampling_method:SamplingMethod.set_parameter", "sampling_method:SamplingMethod.set_value", "sampling_method:SamplingMethod.get_p_control_at", "sampling_method:SamplingMethod.get_p_control_plus_at", "sampling_method:SamplingMethod.get_p_sys"], "parameters enter the NLP exactly as per-interval values", [A_CASADI, A_OPTI, A_FLOAT, A_PY]),
     "C10": _m("proof", ["stage:Stage.set_initial", "sampling_method:SamplingMethod.set_initial", "direct_collocation:DirectCollocation.set_initial", "direct_method:DirectMethod.set_initial", "direct_method:OptiWrapper.set_initial", "direct_method:OptiWrapper.transcribe_placeholders", "sampling_method:SamplingMethod.transcribe"], "starting value of every decision variable (read back in physical units) = the guess oracle", [A_CASADI, A_OPTI, A_FLOAT, A_PY]),
     "C11": _m("proof", ["direct_method:DirectMethod.fill_placeholders_T", "direct_method:DirectMethod.fill_placeholders_t0", "stage:Stage.set_T", "stage:Stage.set_t0", "sampling_method:SamplingMethod.add_variables_V"], "free-time NLP = fixed-time oracle with T a variable plus T>=0", [A_CASADI, A_OPTI, A_FLOAT, A_PY]),
+    "C12": _m("proof", ["stage:Stage.stage", "stage:Stage.clone", "stage:Stage.__deepcopy__", "stage:Stage._transcribe_recurse", "stage:Stage._placeholders_transcribe_recurse", "ocp:Ocp._transcribe", "direct_method:DirectMethod.main_transcribe", "direct_method:DirectMethod.transcribe", "direct_method:OptiWrapper.add_objective"], "multi-stage NLP = disjoint union of the stage oracles + master rows; clones = directly declared stages; clone field completeness", [A_CASADI, A_OPTI, A_PY, "deepcopy contract"]),
     "C13": _m("proof", ["ocp:Ocp._transcribed", "ocp:Ocp._transcribe", "ocp:Ocp._untranscribe", "ocp:Ocp.solver", "stage:Stage._set_transcribed", "stage:Stage.set_T", "stage:Stage.set_t0", "stage:Stage.set_value", "stage:Stage.set_initial", "stage:Stage.subject_to", "stage:Stage.add_objective", "stage:Stage.method", "stage:Stage.set_der", "stage:Stage.clear_constraints", "sampling_method:SamplingMethod.clean", "direct_collocation:DirectCollocation.clean", "direct_method:DirectMethod.clean"], "invalidate-or-reapply discipline and clean-completeness as structural obligations over the AST of every public mutator; catalogue of histories compared with the freshly written OCP on the casadi model", [A_CASADI, A_OPTI, A_PY, "deepcopy contract: copy.deepcopy yields an isomorphic object graph with the same CasADi symbols"]),
+    "C16": _m("proof", ["stage:Stage.der", "stage:Stage.control", "stage:AbstractSignal.der", "stage:AbstractSignal.register", "stage:Stage.set_der", "stage:Stage._ode"], "der(e) on the casadi model equals the chain rule with uninterpreted partial derivatives, on every branch; control chains; raises", [A_CASADI, A_PY, "jtimes contract: directional derivative (chain rule over uninterpreted functions)"]),
     "C20": _m("proof", ["stage:Stage._ode", "stage:Stage._diffeq", "stage:Stage._param_value", "stage:Stage.add_objective", "stage:Stage.set_value", "stage:Stage.set_initial", "stage:Stage.subject_to", "stage:Stage._sample", "stage:Stage.der", "casadi_helpers:for_all_primitives", "direct_method:DirectMethod.main_transcribe", "direct_method:DirectMethod.transcribe", "direct_method:OptiWrapper.subject_to", "direct_method:OptiWrapper.transcribe_placeholders", "sampling_method:SamplingMethod.intg_rk", "sampling_method:SamplingMethod.intg_expl_euler", "sampling_method:SamplingMethod.discrete_system", "sampling_method:SamplingMethod.set_value"], "every catalogued fault x method raises during declaration/transcription of the real code on the casadi model; documented exception handlers only", [A_CASADI, A_OPTI, A_PY, "Function(...) / Opti reject free and foreign symbols and constant constraints (modelled after CasADi, validated natively)"]),
     "C14": _m("proof", ["stage:Stage._parse_scale", "direct_method:OptiWrapper.variable", "direct_method:OptiWrapper.transcribe_placeholders"] + PLACE[:1], "scaled NLP in physical quantities = unscaled oracle rows divided by their scale", [A_CASADI, A_OPTI, A_FLOAT, A_PY]),
 }
